@@ -108,3 +108,18 @@ Proof.
 Qed.
 Example C04_ex_phi : phi_fixed (5854679515581645, -53)%Z = Ok 10905190 /\ phi_fixed (1, 8)%Z = Panic.
 Proof. split; vm_compute; reflexivity. Qed.
+
+(* ---- tie to the source's feed_hash (translator): the model's [feed_hash] was written against exactly
+   this shape: only CardanoBlocksTransactions feeds its index, and the variants feed 1,1,2,2,3 big-endian
+   u64 operands in this order.  If the source's feed_hash changes (e.g. its TODO is implemented) this
+   stops checking and the property is re-examined, instead of relying on the correspondence run alone. ---- *)
+Require Import Coq.Strings.String.
+Local Open Scope string_scope.
+Example C04_feed_hash_tie :
+  FEED_HASH_INDEXED = ["CardanoBlocksTransactions"] /\
+  FEED_HASH_FIELDS =
+    [ ("MithrilStakeDistribution", ["epoch"]); ("CardanoStakeDistribution", ["epoch"]);
+      ("CardanoDatabase", ["db_beacon.epoch"; "db_beacon.immutable_file_number"]);
+      ("CardanoTransactions", ["epoch"; "block_number"]);
+      ("CardanoBlocksTransactions", ["epoch"; "block_number"; "block_number_offset"]) ].
+Proof. split; reflexivity. Qed.
